@@ -4,7 +4,8 @@ import common, guards
 
 TUS = ['src/LocaleInfo.cpp']
 LI = 'tulz::LocaleInfo'
-WRITERS = {'memcpy': (0, 2), 'memmove': (0, 2), 'memset': (0, 2), 'strncpy': (0, 2), 'strncat': (0, 2), 'snprintf': (0, 1)}
+ITER_WRITERS = {'copy': (2, 0, 1), 'fill': (0, 0, 1), 'move': (2, 0, 1)}
+WRITERS = {'copy_n': (2, 1), 'fill_n': (0, 1), 'memcpy': (0, 2), 'memmove': (0, 2), 'memset': (0, 2), 'strncpy': (0, 2), 'strncat': (0, 2), 'snprintf': (0, 1)}
 UNBOUNDED = {'strcpy', 'strcat', 'sprintf', 'gets', 'vsprintf'}
 SIGNED = ('int', 'long', 'long long', 'short', 'char', 'signed char', 'ptrdiff_t')
 
@@ -21,6 +22,8 @@ def base_array(n):
         s = n.n('sub'); c = guards.const_of(s.n('idx'))
         if c is None: return None, None
         off += c; n = guards.strip_casts(s.n('base'))
+    if n is not None and n.k == 'call' and strip_targs(n.calleeq or '') in ('std::begin', 'std::data', 'std::cbegin') and n.ns('args') and n.ns('args')[0] is not None:
+        n = guards.strip_casts(n.ns('args')[0])
     if n is not None and n.k == 'ref' and n.dk in ('local', 'param') and '[' in (n.d.get('decltype') or n.type or ''):
         return n, off
     return None, None
@@ -96,6 +99,24 @@ def run(facts, rep, tier):
                     nw += 1
                     rep.violation('LO.1', f'{base}() into {arr.name}', n.shortloc(), f'{base} writes an unbounded number of bytes into {arr.name}[{array_len(arr)}]', key=f'LO.1|unbounded|{base}', fn=g.name)
                 elif args[0] is not None and _ptr_param(args[0], g): rep.inconclusive('LO.1', f'{base}() in {g.name}', n.shortloc(), 'unbounded writer through a pointer parameter: what it points to is not followed')
+                continue
+            if base in ITER_WRITERS and (n.calleeq or '').startswith('std::') and len(args) >= 3 and all(a is not None for a in args[:3]):
+                # std::copy(first, last, dest) / std::fill(first, last, value): last - first elements are written
+                di, fi, la_ = ITER_WRITERS[base]
+                arr, off = base_array(args[di])
+                if arr is None:
+                    if _ptr_param(args[di], g) and arrays: rep.inconclusive('LO.1', f'{base}() in {g.name}', n.shortloc(), 'the destination is a pointer parameter: which buffer it designates, and how large it is, is not followed into the helper')
+                    continue
+                nw += 1
+                size = array_len(arr)
+                is_fill_ = base == 'fill'
+                limit = size - off - (0 if is_fill_ else 1)
+                label = f'std::{base}({args[fi].text()[:20]}, {args[la_].text()[:20]}, …) into {arr.name}'
+                e_arr, _ = (base_array(args[la_].ns('args')[0]) if (args[la_].k == 'call' and strip_targs(args[la_].calleeq or '') in ('std::end', 'std::cend') and args[la_].ns('args') and args[la_].ns('args')[0] is not None) else (None, None))
+                if is_fill_ and e_arr is not None and e_arr.decl == arr.decl and off == 0:
+                    rep.ok('LO.1', f'{label}: the whole array, {size} element(s)', n.shortloc()); continue
+                ok, why = bounded(g, n, (args[la_], args[fi]), limit)
+                rep.check(ok, 'LO.1', f'{label}: last - first is bounded by a dominating guard (<= {limit}, non-negative)', n.shortloc(), why, key=f'LO.1|guard|{base}|{args[la_].text()[:20]}-{args[fi].text()[:20]}', fn=g.name)
                 continue
             if base not in WRITERS: continue
             di, li = WRITERS[base]
@@ -534,8 +555,22 @@ def bounded(f, use, L, limit, subst=None, lfn=None):
     `L` is written in function `lfn` (default f); with `subst` (parameter decl -> (argument, caller)) the guards are those of the caller
     at the call site `use`.  Guards and length are compared as linear forms, so `dotDelim - (delim + 1)` meets `dotDelim - delim - 1`."""
     lfn = lfn or f
-    Ls = guards.strip_casts(L)
-    target = _linform(L, lfn, subst)
+    if isinstance(L, tuple):
+        # an iterator pair: the length is last - first
+        l1, l0 = _linform(L[0], lfn, subst), _linform(L[1], lfn, subst)
+        class _Txt:
+            def __init__(s_, t): s_._t = t; s_.type = 'ptrdiff_t'
+            def text(s_): return s_._t
+        Ls = _Txt(f'{guards.strip_casts(L[0]).text()[:24]} - {guards.strip_casts(L[1]).text()[:24]}')
+        if l1 is None or l0 is None: return False, f'`{Ls.text()[:50]}` is not a linear expression the guard analysis follows'
+        D_ = dict(l1[0])
+        for k_, v_ in l0[0].items():
+            D_[k_] = D_.get(k_, 0) - v_
+            if D_[k_] == 0: del D_[k_]
+        target = (D_, l1[1] - l0[1]); L = Ls
+    else:
+        Ls = guards.strip_casts(L)
+        target = _linform(L, lfn, subst)
     if target is None: return False, f'`{Ls.text()[:50]}` is not a linear expression the guard analysis follows'
     norm = lambda t: (t or '').replace('const ', '').replace('volatile ', '').strip()
     signed_len = norm(L.type) in SIGNED or norm(Ls.type) in SIGNED
@@ -676,6 +711,24 @@ def _selection_rules(facts, rep, f):
                 if l.k == 'call' and l.callee_base() == 'compare' and (l.mclass or '').startswith(('std::basic_string', 'std::basic_string_view')): return ('eq',) if positive else ('unknown', 'an inequality')
             for a_, b_ in ((l, r), (r, l)):
                 if a_ is not None and a_.k == 'call' and (a_.calleeq or '').split('::')[-1] == 'strlen' and a_.ns('args'): return ('term', a_.ns('args')[0], b_) if positive else ('unknown', 'an inequality')
+            # `it != std::end(table)` with it = std::find_if(begin, end, pred): the entry was selected by pred
+            for a_, b_ in ((l, r), (r, l)):
+                if a_ is None or b_ is None or not (a_.k == 'ref' and a_.dk == 'local'): continue
+                init = guards.single_assignment_init(fn, a_.decl)
+                if init is None: continue
+                srch = next((x for x in init.walk() if x.k == 'call' and strip_targs(x.calleeq or '').split('::')[-1].replace('__', '').replace('_fn', '') in ('find_if', 'find_if_not', 'operator()') and 'find_if' in (x.calleeq or '')), None)
+                is_end = b_.k == 'call' and (strip_targs(b_.calleeq or '') in ('std::end', 'std::cend') or b_.callee_base() in ('end', 'cend'))
+                if srch is None or not is_end: continue
+                lam = next((x for x in srch.ns('args') if x is not None and strip(x).k == 'lambda'), None)
+                lf = facts.lambda_fn(strip(lam)) if lam is not None else None
+                if lf is None or not lf.d['params']: return ('unknown', 'the predicate of the search is not a lambda written here')
+                rets = [n for n in lf.nodes() if n.k == 'return']
+                if len(rets) != 1: return ('unknown', 'the predicate of the search has several returns')
+                val = rets[0].n('value') if rets[0].n('value') is not None else rets[0].n('sub')
+                pd = lf.d['params'][0]['decl']
+                found = (e.op == '!=') != neg
+                if 'find_if_not' in (srch.calleeq or ''): found = not found
+                return classify(val, lf, lambda y, _pd=pd: (y.k == 'ref' and y.decl == _pd) or (y.k == 'member' and y.name in ('code', 'value') and y.n('base') is not None and strip(y.n('base')) is not None and strip(y.n('base')).k == 'ref' and strip(y.n('base')).decl == _pd), depth + 1, not found)
             return ('unknown', f'`{e.text()[:50]}`')
         if e.k == 'call':
             q = e.calleeq or ''
@@ -863,6 +916,19 @@ def _buffer_flow(facts, g, bufdecl, entry, size, memo, reads, depth=0):
             return st if st == 'Z' and z == 0 else ('D' if st != 'U' else 'U')
         if base in ('memcpy', 'memmove', 'strncpy') and len(args) == 3 and is_buf(args[0]):
             return 'S' if st == 'Z' else (('C', args[2]) if st != 'U' else 'U')
+        if (node.calleeq or '').startswith('std::') and base in ('fill', 'fill_n', 'copy', 'copy_n', 'move') and len(args) >= 3 and all(a is not None for a in args[:3]):
+            # std::fill(begin(buf), end(buf), 0) zeroes the whole array; std::copy(first, last, buf) / copy_n(first, n, buf) copy bytes, no terminator
+            if base == 'fill' and is_buf(args[0]):
+                whole = args[1].k == 'call' and strip_targs(args[1].calleeq or '') in ('std::end', 'std::cend') and args[1].ns('args') and is_buf(args[1].ns('args')[0])
+                z = guards.const_of(args[2])
+                if whole and z == 0: return 'Z'
+                return st if st == 'Z' and z == 0 else ('D' if st != 'U' else 'U')
+            if base == 'fill_n' and is_buf(args[0]):
+                c = guards.const_of(args[1]); z = guards.const_of(args[2])
+                if z == 0 and c is not None and size is not None and c >= size: return 'Z'
+                return st if st == 'Z' and z == 0 else ('D' if st != 'U' else 'U')
+            if base in ('copy', 'copy_n', 'move') and is_buf(args[2]):
+                return 'S' if st == 'Z' else (('C', args[1]) if st != 'U' else 'U')
         if base == 'snprintf' and args and is_buf(args[0]): return 'S'
         if base in ('strcpy',) and args and is_buf(args[0]): return 'S'
         if base in ('strncat', 'strcat') and args and is_buf(args[0]): return st if st in ('S', 'Z') else st
